@@ -78,22 +78,22 @@ let () =
           if fl = "h" then begin
             let s0 = lookup_state html_state_names (String.trim st) in
             if use_flat then begin
-              let m0 = { mc = init_cfg s0 last ex bom; mq = []; mout = []; mcons = N0 } in
-              let (m, log) = drive_flat html_flavour html_table simd ent c1 sk fuel inject chunks m0 [] in
+              let m0 = { mc = init_cfg s0 last bom; mq = []; mout = []; mcons = N0 } in
+              let (m, log) = drive_flat html_flavour ex html_table simd ent c1 sk fuel inject chunks m0 [] in
               (List.rev m.mout, List.rev log)
             end else begin
-            let m0 = { mc = init_cfg s0 last ex bom; mq = []; mout = []; mcons = N0 } in
-            let (m, log) = drive_chunked html_flavour (if use_golden then g_html_table else html_table) simd ent c1 sk fuel inject chunks m0 [] in
+            let m0 = { mc = init_cfg s0 last bom; mq = []; mout = []; mcons = N0 } in
+            let (m, log) = drive_chunked html_flavour ex (if use_golden then g_html_table else html_table) simd ent c1 sk fuel inject chunks m0 [] in
             (List.rev m.mout, List.rev log) end
           end else begin
             let s0 = lookup_state xml_state_names (String.trim st) in
             if use_flat then begin
-              let m0 = { mc = init_cfg s0 last ex bom; mq = []; mout = []; mcons = N0 } in
-              let (m, log) = drive_flat xml_flavour xml_table simd ent c1 sk fuel inject chunks m0 [] in
+              let m0 = { mc = init_cfg s0 last bom; mq = []; mout = []; mcons = N0 } in
+              let (m, log) = drive_flat xml_flavour ex xml_table simd ent c1 sk fuel inject chunks m0 [] in
               (List.rev m.mout, List.rev log)
             end else begin
-            let m0 = { mc = init_cfg s0 last ex bom; mq = []; mout = []; mcons = N0 } in
-            let (m, log) = drive_chunked xml_flavour (if use_golden then g_xml_table else xml_table) simd ent c1 sk fuel inject chunks m0 [] in
+            let m0 = { mc = init_cfg s0 last bom; mq = []; mout = []; mcons = N0 } in
+            let (m, log) = drive_chunked xml_flavour ex (if use_golden then g_xml_table else xml_table) simd ent c1 sk fuel inject chunks m0 [] in
             (List.rev m.mout, List.rev log) end
           end in
         print_string (String.concat " ; " (List.map show_token toks));
